@@ -200,6 +200,36 @@ class PipeHarness(explore.Harness):
             self.obs["io_fault_fired"] = IO_FAULT.get("fired", False)
         self.obs["live_at_return"] = [t.name for t in s.threads if t.started and not t.done and t is not me]
 
+    def storage_verdict(self):
+        """C04's clause for exceptions in plugins / savers / loaders and for an abandoned iterator: once the call has
+        returned, a FRESH context must find every data type it reports as stored complete and equal to the whole-run
+        reference (pre-stored inputs included); anything else must be reported unavailable.  Sequential, run after
+        the execution (all pipeline threads have terminated)."""
+        pc = self.pc
+        if self.world is not None:
+            self.world.fault = None
+        IO_FAULT["save"] = IO_FAULT["load"] = None
+        ref = g.reference(pc.spec, pc.sources())
+        stored_types = []
+        for t in ref:
+            try:
+                st = self.ctx()
+                stored = st.is_stored(RUN, t)
+            except Exception as e:  # noqa
+                return f"STORAGE is_stored({t}) raised {type(e).__name__}: {str(e)[:120]}"
+            if not stored:
+                continue
+            stored_types.append(t)
+            try:
+                st.set_context_config(dict(forbid_creation_of=tuple(ref)))
+                got = st.get_array(RUN, t, processor="single_thread", progress_bar=False)
+            except Exception as e:  # noqa
+                return f"STORAGE stored-but-unloadable: {t} is reported stored but loading raised {type(e).__name__}: {str(e)[:120]}"
+            if not ctxrun.rows_equal(got, ref[t]):
+                return f"STORAGE stored-but-wrong: {t} is reported stored but holds {len(got)} rows, the correct result has {len(ref[t])}"
+        self.obs["stored_after"] = tuple(stored_types)
+        return None
+
     def _find_mailboxes(self, it):
         # walk get_iter -> processor.iter generator frames to reach the processor's mailboxes
         try:
